@@ -329,6 +329,19 @@ impl Api {
                 });
                 std::mem::forget(outer);
                 self.h.insert(l.to_string(), H::P); ok() }
+            ["routehandler", l, trig, r, k] => { fresh!(l); let (trig, k) = (need!(self.s(trig)), need!(num(k)));
+                // a route requested (and listened to) by the handler of any stream's first event — possibly a deferred stream,
+                // whose handler runs in a later transaction than the one the router dispatched in
+                let router = match self.h.get(*r) { Some(H::R(r, _)) => r.clone(), _ => return "skip".into() };
+                let log = self.log.clone(); let name = l.to_string();
+                let keep: Arc<Mutex<Vec<Listener>>> = Arc::new(Mutex::new(vec![]));
+                let outer = trig.once().listen(move |_k: &i64| {
+                    let (log, name) = (log.clone(), name.clone());
+                    let li = router.filter_matches(&k).listen(move |v: &i64| log.lock().unwrap().push((name.clone(), *v)));
+                    keep.lock().unwrap().push(li);
+                });
+                std::mem::forget(outer);
+                self.h.insert(l.to_string(), H::P); ok() }
             ["leafdrop", l, trig, s, kind] => { fresh!(l); let (trig, s, kind) = (need!(self.s(trig)), need!(self.s(s)), need!(num(kind)));
                 // an unobserved primitive on `s` whose only handle is dropped by the handler of another stream's first event,
                 // possibly while its node is already queued for update in that transaction: nothing may happen
